@@ -85,3 +85,40 @@ Qed.
 Lemma poll_error_iff ps :
   cur (state_after_polls ss_new ps) = Error <-> 20 <= trailing false (map poll_ok ps).
 Proof. unfold state_after_polls. apply error_iff_20. Qed.
+
+(* one success is reported as Success exactly when the report before it was not Error, i.e. when it does not
+   end a run of 20 or more failures: recovery from Error takes two successes, from anything else one *)
+Lemma success_after obs :
+  cur (run_state ss_new (obs ++ [true])) = Success <-> trailing false obs < 20.
+Proof.
+  pose proof threshold_le_max as [Hle H1]. unfold max_consecutive in *.
+  pose proof (error_iff_20 obs) as Hiff.
+  destruct (inv_reach obs) as (_ & _ & Hs & Hno & _ & _).
+  rewrite run_state_snoc. revert Hiff Hno Hs.
+  generalize (run_state ss_new obs). intros s Hiff Hno Hs.
+  unfold update_state, update_counts, max_consecutive.
+  destruct (succ_count s <? Consts.ext_max_consecutive_count) eqn:Hlt;
+  destruct (cur s) eqn:Hc; cbn [cur];
+  repeat match goal with |- context [if ?c then _ else _] => destruct c eqn:? end;
+  split; intros H; try reflexivity; try discriminate; try congruence; try lia;
+  try (destruct Hiff as [Hi1 Hi2]; try (specialize (Hi1 eq_refl); lia);
+       try (assert (20 <= trailing false obs) as Hx by lia; specialize (Hi2 Hx); discriminate);
+       try (destruct (N.lt_ge_cases (trailing false obs) 20) as [Hl|Hg];
+            [exact Hl|specialize (Hi2 Hg); discriminate])).
+Qed.
+
+Lemma recovery_needs_two obs :
+  20 <= trailing false obs ->
+  cur (run_state ss_new (obs ++ [true])) = Transitioning /\
+  cur (run_state ss_new (obs ++ [true; true])) = Success.
+Proof.
+  intros H. split.
+  - pose proof (success_after obs) as [Hs _].
+    pose proof (inv_reach (obs ++ [true])) as (_ & _ & _ & Hno & _ & _).
+    assert (He : cur (run_state ss_new (obs ++ [true])) <> Error)
+      by (rewrite run_state_snoc; apply success_never_error).
+    destruct (cur (run_state ss_new (obs ++ [true]))) eqn:E; try reflexivity; try congruence.
+    specialize (Hs eq_refl). lia.
+  - replace (obs ++ [true; true]) with ((obs ++ [true]) ++ [true]) by (rewrite <- app_assoc; reflexivity).
+    rewrite !run_state_snoc. apply two_successes.
+Qed.
